@@ -388,6 +388,8 @@ pub struct OwnerFinding {
     pub event: u64,
     /// which background activity, if any, raced with the owner's last operation on the key
     pub race: &'static str,
+    /// the current incarnation of the key carried a TTL at some point (it was removed by an upsert)
+    pub had_ttl: bool,
 }
 
 /// Did a sweep that expired the entry with this id overlap the given call interval?
@@ -439,14 +441,15 @@ pub fn owner_oracle(sc: &Scenario, hx: &Hx, fits: bool) -> (Vec<OwnerFinding>, b
         ws.sort_by_key(|w| w.inv);
         // gaps: (from_seq, to_seq, state)
         let mut state = OwnerState::Absent;
-        let mut gaps: Vec<(u64, u64, OwnerState, bool, &'static str)> = vec![];
+        let mut gaps: Vec<(u64, u64, OwnerState, bool, &'static str, bool)> = vec![];
+        let mut had_ttl = false;
         let mut cur_id = 0u64;
         let mut race: &'static str = "race=none";
         let mut prev_done = 0u64;
         let mut reput = false;
         let mut ever_removed = false;
         for w in &ws {
-            gaps.push((prev_done, w.inv, state.clone(), reput, race));
+            gaps.push((prev_done, w.inv, state.clone(), reput, race, had_ttl));
             race = "race=none";
             let done = match w.done_seq() {
                 Some(d) => d,
@@ -476,6 +479,7 @@ pub fn owner_oracle(sc: &Scenario, hx: &Hx, fits: bool) -> (Vec<OwnerFinding>, b
                             reput = true;
                         }
                         cur_id = w.key_id;
+                        had_ttl = ttl.is_some();
                         // the expiry is computed on the worker while it applies the command
                         let lo = w.apply_begin.map(|s| hx.clock_lo(s)).unwrap_or(w.clock_inv);
                         let hi = w.apply_end.map(|e| hx.clock_hi(e.0)).unwrap_or_else(|| hx.clock_hi(done));
@@ -492,6 +496,9 @@ pub fn owner_oracle(sc: &Scenario, hx: &Hx, fits: bool) -> (Vec<OwnerFinding>, b
                 }
                 match (&state, st) {
                     (OwnerState::Present { val: old, exp }, St::Accepted) => {
+                        if ttl.is_some() {
+                            had_ttl = true;
+                        }
                         let nexp = if remove_ttl {
                             None
                         } else if let Some(d) = ttl {
@@ -510,7 +517,7 @@ pub fn owner_oracle(sc: &Scenario, hx: &Hx, fits: bool) -> (Vec<OwnerFinding>, b
             prev_done = done;
         }
         if prev_done != u64::MAX {
-            gaps.push((prev_done, u64::MAX, state.clone(), reput, race));
+            gaps.push((prev_done, u64::MAX, state.clone(), reput, race, had_ttl));
         }
         for r in &hx.reads {
             for (pos, rk) in r.keys.iter().enumerate() {
@@ -519,8 +526,8 @@ pub fn owner_oracle(sc: &Scenario, hx: &Hx, fits: bool) -> (Vec<OwnerFinding>, b
                 }
                 let got = r.vals.get(pos).copied().flatten();
                 let gap = gaps.iter().find(|g| r.inv > g.0 && r.ret < g.1);
-                let (state, was_reput, race) = match gap {
-                    Some(g) => (&g.2, g.3, g.4),
+                let (state, was_reput, race, gap_had_ttl) = match gap {
+                    Some(g) => (&g.2, g.3, g.4, g.5),
                     None => continue,
                 };
                 match state {
@@ -532,6 +539,7 @@ pub fn owner_oracle(sc: &Scenario, hx: &Hx, fits: bool) -> (Vec<OwnerFinding>, b
                                 msg: format!("T{}#{} {:?}(k{}) returned {:x} although its owner had deleted it / never put it", r.t, r.i, r.kind, k, v),
                                 event: r.ret,
                                 race,
+                                had_ttl: gap_had_ttl,
                             });
                         }
                     }
@@ -546,6 +554,7 @@ pub fn owner_oracle(sc: &Scenario, hx: &Hx, fits: bool) -> (Vec<OwnerFinding>, b
                                     msg: format!("T{}#{} {:?}(k{}) returned {:x}, the owner's latest acknowledged value is {:x}", r.t, r.i, r.kind, k, v, val),
                                     event: r.ret,
                                     race,
+                                    had_ttl: gap_had_ttl,
                                 });
                                 continue;
                             }
@@ -558,6 +567,7 @@ pub fn owner_oracle(sc: &Scenario, hx: &Hx, fits: bool) -> (Vec<OwnerFinding>, b
                                         msg: format!("T{}#{} {:?}(k{}) returned None; the owner's accepted value {:x} has no TTL, was not deleted and nothing can be evicted", r.t, r.i, r.kind, k, val),
                                         event: r.ret,
                                         race,
+                                        had_ttl: gap_had_ttl,
                                     });
                                 }
                             }
@@ -569,6 +579,7 @@ pub fn owner_oracle(sc: &Scenario, hx: &Hx, fits: bool) -> (Vec<OwnerFinding>, b
                                         msg: format!("T{}#{} {:?}(k{}) served {:x} at clock {}.{:09} although its expiry is at most {}.{:09}", r.t, r.i, r.kind, k, val, r.clock_inv.s, r.clock_inv.n, emax.s, emax.n),
                                         event: r.ret,
                                         race,
+                                        had_ttl: gap_had_ttl,
                                     });
                                 }
                                 if r.clock_ret <= *emin && got.is_none() && fits {
@@ -577,6 +588,7 @@ pub fn owner_oracle(sc: &Scenario, hx: &Hx, fits: bool) -> (Vec<OwnerFinding>, b
                                         msg: format!("T{}#{} {:?}(k{}) returned None at clock {}.{:09} although {:x} expires no earlier than {}.{:09}", r.t, r.i, r.kind, k, r.clock_ret.s, r.clock_ret.n, val, emin.s, emin.n),
                                         event: r.ret,
                                         race,
+                                        had_ttl: gap_had_ttl,
                                     });
                                 }
                             }
@@ -622,6 +634,10 @@ pub fn c09_conc(sc: &Scenario, hx: &Hx, v: &mut Verdict, fits: bool) {
     for f in finds {
         if matches!(f.class, "served-after-expiry" | "hidden-before-expiry") {
             v.fail("C09", race_signature("C09", f.class, f.race), f.msg, f.event);
+        } else if f.class == "lost-live-key" && f.had_ttl && fits {
+            // its TTL was removed, nothing can be evicted, it was not deleted: it "expired" anyway
+            let sig = if f.race == "race=none" { "C09/no-ttl-key-expired/conc".to_string() } else { race_signature("C09", f.class, f.race) };
+            v.fail("C09", sig, f.msg, f.event);
         }
     }
     if window {
